@@ -94,7 +94,8 @@ func init() {
 	py.RegisterModule(&py.ModuleImpl{
 		Info:    py.ModuleInfo{Name: "vh", Doc: "verification harness"},
 		Methods: methods,
-		Globals: py.StringDict{},
+		// K7: a plain value to import under any name (`from vh import K7 as x` binds x by import)
+		Globals: py.StringDict{"K7": py.Int(7)},
 	})
 }
 
